@@ -156,6 +156,18 @@ def one(cid, est, rng, big, wide=False):
                 Gk = np.asarray(obj.inverse(format="kinship"), dtype=float)
                 if np.max(np.abs((0.5 * G) @ Gk - np.eye(n))) > 1e-6:
                     num.append("inverse-kinship")
+                if n >= 2:
+                    # the summaries were queried; the matrix is now changed IN PLACE (reordered, jittered) and queried again: they
+                    # describe the matrix as it is now
+                    pm_ = list(range(n)); rng.shuffle(pm_)
+                    obj.reorder_taxa(np.array(pm_))
+                    G2 = np.asarray(obj.mat_asformat("coancestry"), dtype=float)
+                    if np.max(np.abs(G2 @ np.asarray(obj.inverse(), dtype=float) - np.eye(n))) > 1e-6:
+                        num.append("inverse-after-in-place-reorder")
+                    if abs(obj.min_inbreeding() - 1.0 / np.linalg.inv(G2).sum()) > 1e-6 * max(1.0, abs(1.0 / np.linalg.inv(G2).sum())):
+                        num.append("min-inbreeding-after-in-place-reorder")
+                    if abs(obj.max_inbreeding() - G2.diagonal().max()) > 1e-12 or abs(obj.mean() - G2.mean()) > 1e-12:
+                        num.append("summaries-after-in-place-reorder")
             ev = np.linalg.eigvalsh((G + G.T) / 2.0)
             if ev.min() < -1e-9 * max(1.0, abs(np.trace(G))):
                 num.append("not-positive-semidefinite")
